@@ -1,5 +1,6 @@
 import OnetVerif.Model.Util
 import OnetVerif.Model.C09Entries
+import OnetVerif.Model.C09Local
 import OnetVerif.Generated
 /-! Model for property C09 — peer failures are contained, reported to senders, and recoverable
 (core-only).
@@ -224,6 +225,11 @@ structure State where
   rh : List (Nat × Peer) := []
   /-- tree-node instances of the survivor that live across operations, by number -/
   tnis : List (Nat × Tni) := []
+  /-- the survivor's tree store and parked messages -/
+  trees : Trees := {}
+  /-- victims that are full servers: (peer, trees its current incarnation has registered) -/
+  speers : List (Nat × List Nat) := []
+  msgs : Nat := 0
   deriving Repr
 
 def init : State := {}
@@ -360,8 +366,49 @@ def step (d : State) (toks : List String) : State × String :=
     | _, _ => (d, "bad-op")
   | ["down", p] | ["freeze", p] | ["hang", p] =>
     match p.toNat? with
-    | some p => lose d p
+    | some p =>
+      -- a full server that restarts has lost the trees it knew
+      lose { d with speers := d.speers.map fun (x, ts) => if x = p then (x, []) else (x, ts) } p
     | none => (d, "bad-op")
+  | ["speer", x] =>
+    -- victim x is a full onet server (it can answer a tree request)
+    match x.toNat? with
+    | some x =>
+      if x = 0 ∨ (d.speers.lookup x).isSome ∨ s.up.contains x then (d, "bad-op")
+      else ({ d with core := (C09.step s (.peerUp x)).1, speers := d.speers ++ [(x, [])] }, "ok")
+    | none => (d, "bad-op")
+  | ["orphanmsg", t, x] | ["treesend", t, x] =>
+    -- a protocol message over tree t (root x, the survivor below it) reaches the survivor:
+    -- `orphanmsg`: handed to its overlay as the router would (x may be dead by now);
+    -- `treesend`: sent by x's root instance through the network (x registers the tree first)
+    match t.toNat?, x.toNat?.bind (fun x => (d.speers.lookup x).map (x, ·)) with
+    | some t, some (x, xt) =>
+      let viaNet := toks.head? = some "treesend"
+      if viaNet ∧ !s.up.contains x then (d, "bad-op") else
+      let xt := if viaNet ∧ !xt.contains t then xt ++ [t] else xt
+      -- through the network: x uses the connection it has with the survivor, or opens one
+      let s := if viaNet ∧ !(s.conns.any fun c => c.peer == x && c.alive) then (C09.step s (.accept x)).1 else s
+      let r := transmit true rsend s d.trees x t d.msgs
+      -- x answers a request it receives if it has the tree
+      let tr := if r.2.2 = .ok ∧ xt.contains t ∧ s.up.contains x then treeArrives r.2.1 t else r.2.1
+      let st := if tr.known.contains t then "present" else if tr.asked.contains t then "requested" else "absent"
+      ({ d with core := r.1, trees := tr, msgs := d.msgs + 1,
+                speers := (x, xt) :: d.speers.filter (·.1 != x) },
+        s!"state={st} parked={(tr.parked.filter (·.1 == t)).length} handled={(tr.handled.filter (·.1 == t)).length}")
+    | _, _ => (d, "bad-op")
+  | ["backlog", p, fill, snd] =>
+    -- in-memory transport: the victim's application is busy, `fill` messages wait in the queues
+    -- of its connection, `snd` more sends are made at the same time (some wait for room), then the
+    -- victim shuts down.  Every send comes back, none panics (`c09_close_never_races_an_enqueue`);
+    -- the victim is lost like by `down`.
+    match p.toNat?, fill.toNat?, snd.toNat? with
+    | some p, some f, some n =>
+      if p = 0 ∨ f > 390 ∨ n = 0 ∨ n > 64 ∨ !s.up.contains p ∨ s.dpc ≠ dialsPerConnect Generated.maxRetryConnect .loc then (d, "bad-op") else
+      -- first contact if there is no connection yet
+      let s1 := (send s p [0] false).1
+      let r := lose { d with core := s1 } p
+      (r.1, s!"returned={n} panics=0 told={r.2}")
+    | _, _, _ => (d, "bad-op")
   | ["pause"] => (d, "ok")
   | ["kill", p] =>
     match p.toNat? with
